@@ -57,7 +57,7 @@ VARIABLES chan, infl, pend, nsent, lastSent, lastRecv, lastEntered, nrun,   \* P
           cmd,       \* the last distribution whose calls all ended
           cnt        \* [prop, comp, to]: environment actions taken (bounds the model)
 
-PD == INSTANCE PowerDistributor WITH Groups <- {1}, MaxReq <- MaxReqs, h <- <<>>
+PD == INSTANCE PowerDistributor WITH Groups <- {1}, MaxReq <- MaxReqs, h <- <<>>, nrestart <- 0, MaxRestart <- 0
 
 pmv == <<R, O, sys, clock, lastPartial, last, rep>>
 pdv == <<chan, infl, pend, nsent, lastSent, lastRecv, lastEntered, nrun>>
